@@ -11,7 +11,9 @@ import time
 
 from .facts import VERIF, AnalysisIncomplete
 
-EVIDENCE_DIR = os.path.join(VERIF, "evidence")
+# CTPGSA_EVIDENCE_DIR: used only by the self-test / mutant matrix so that runs against scratch copies of the
+# repository do not overwrite the evidence of /repo itself
+EVIDENCE_DIR = os.environ.get("CTPGSA_EVIDENCE_DIR") or os.path.join(VERIF, "evidence")
 REPLAY_DIR = os.path.join(EVIDENCE_DIR, "replays")
 KNOWN = os.path.join(VERIF, "known_findings.txt")
 
